@@ -543,6 +543,12 @@ def judge_stats(r, NP):
         t_end = max(round(x[1] + x[6], 9) for x in posts)
         if sorted(round(float(k.time), 9) for k in recs) != [t_end]:
             bad.append(('one-record-per-run', {'type': 'e_global_post_run', 'record_times': sorted(float(k.time) for k in recs), 'end_of_last_accepted_step': t_end}))
+        else:
+            # ... keyed with the restart count of the accepted attempt it belongs to
+            last = max(posts, key=lambda x: x[1] + x[6])
+            for k in recs:
+                if k.num_restarts != last[5]:
+                    bad.append(('restart-count-key', {'type': 'e_global_post_run', 'time': k.time, 'key': k.num_restarts, 'step': last[5]}))
     # quantities recorded after every iteration: one surviving record per accepted step AND iteration, keyed with the step's restart count
     iter_start = ['residual_post_iteration']
     iter_end = ['e_global_post_iteration', 'e_local_post_iteration', 'error_embedded_estimate_post_iteration']
